@@ -31,6 +31,9 @@ Proof. revert n m; induction l; destruct n, m; simpl; intros; auto; try congruen
 Lemma nth_upd_other {A} n m (x d : A) l : n <> m -> nth m (upd n x l) d = nth m l d.
 Proof. revert n m; induction l; destruct n, m; simpl; intros; auto; try congruence. Qed.
 
+Lemma nth_upd_same {A} n (x d : A) l : (n < length l)%nat -> nth n (upd n x l) d = x.
+Proof. revert n; induction l; destruct n; simpl; intros; auto; try lia. apply IHl; lia. Qed.
+
 Lemma nth_upd_cases {A} n m (x d : A) l :
   nth m (upd n x l) d = nth m l d \/ (n = m /\ nth m (upd n x l) d = x).
 Proof.
@@ -104,6 +107,12 @@ Ltac inst_q HQ := repeat match goal with Hq : nth_error (st_qs _) _ = Some _ |- 
 Ltac inst_r HR := repeat match goal with Hr : nth_error (st_rs _) _ = Some _ |- _ => pose proof (HR _ _ Hr); revert Hr end; intros.
 Ltac dest_and := repeat match goal with H : _ /\ _ |- _ => destruct H end.
 Ltac split_in := repeat match goal with H : In _ (_ ++ _) |- _ => apply in_app_or in H; destruct H as [H|[H|[]]] end.
+Ltac nat_eqs := repeat match goal with
+  | H : (?a =? ?b)%nat = true |- _ => apply Nat.eqb_eq in H
+  | H : (?a =? ?b)%nat = false |- _ => apply Nat.eqb_neq in H
+  | H : Nat.eqb ?a ?b = true |- _ => apply Nat.eqb_eq in H
+  | H : Nat.eqb ?a ?b = false |- _ => apply Nat.eqb_neq in H
+  end.
 Ltac pcs := repeat match goal with
   | E : q_pc ?q = _ |- _ => try rewrite E in *; revert E
   | E : r_pc ?r = _ |- _ => try rewrite E in *; revert E
